@@ -43,40 +43,42 @@ type Program struct {
 	initNext  int64
 	initObls  []*Obligation
 
-	onceIDs         map[*ssa.Global]int
-	touchCache      map[*ssa.Function]map[string]bool
-	touchGlobals    map[*ssa.Function]map[*ssa.Global]bool
-	usedDeps        map[string]bool
-	usedContracts   map[string]bool
-	preludeCache    map[bool]string
-	listsOK         bool
-	verifFiles      map[string]bool // files carrying the verif tag
-	loadSecs        float64
-	mutGlobals      []*ssa.Global
-	lits            map[string]string
-	wordLists       map[string]*WordList
-	verifExempt     []string
-	bounded         *boundedStats
-	initDecls       []string
-	audits          []map[string]interface{}
-	selftest        []map[string]interface{}
-	benign          []map[string]interface{}
-	engineTest      *engineResult
-	crossCheck      map[string]interface{}
-	conformanceNote string
-	quickAudits     []map[string]interface{}
-	groundDone      bool
-	groundObls      []*Obligation
-	listFacts       map[string]bool
-	groundHints     map[string]map[string]string
-	litList         []string
-	extConsts       map[string]bool
-	extErrs         map[string]bool
-	provedDeps      map[string]bool
-	fnDeps          map[string]map[string]bool
-	inlined         map[string]bool
-	initBig         map[string]string // reference (numeral) -> value given by big.NewInt in the package initialiser
-	localsTable     map[string]map[string]localType
+	onceIDs          map[*ssa.Global]int
+	touchCache       map[*ssa.Function]map[string]bool
+	touchGlobals     map[*ssa.Function]map[*ssa.Global]bool
+	usedDeps         map[string]bool
+	usedContracts    map[string]bool
+	preludeCache     map[bool]string
+	listsOK          bool
+	verifFiles       map[string]bool // files carrying the verif tag
+	loadSecs         float64
+	mutGlobals       []*ssa.Global
+	lits             map[string]string
+	wordLists        map[string]*WordList
+	verifExempt      []string
+	bounded          *boundedStats
+	initDecls        []string
+	audits           []map[string]interface{}
+	selftest         []map[string]interface{}
+	benign           []map[string]interface{}
+	engineTest       *engineResult
+	crossCheck       map[string]interface{}
+	returnCovers     bool
+	returnCoverStats map[string]interface{}
+	conformanceNote  string
+	quickAudits      []map[string]interface{}
+	groundDone       bool
+	groundObls       []*Obligation
+	listFacts        map[string]bool
+	groundHints      map[string]map[string]string
+	litList          []string
+	extConsts        map[string]bool
+	extErrs          map[string]bool
+	provedDeps       map[string]bool
+	fnDeps           map[string]map[string]bool
+	inlined          map[string]bool
+	initBig          map[string]string // reference (numeral) -> value given by big.NewInt in the package initialiser
+	localsTable      map[string]map[string]localType
 }
 
 func LoadProgram(repo string) (*Program, error) {
